@@ -616,6 +616,10 @@ def gen_base(rng, params, sessions=None, spy_ties=False):
 
 
 def build_c08(rng, tier):
+    if rng.random() < GIANT_LANE.get(tier, 0):
+        sc = gen_base(rng, giant_params(rng))
+        sc['giant'] = True
+        return sc
     if rng.random() < 0.08:
         # reachability of every list length: >= 300 lists of one class in
         # one run (miss probability < 1e-20 for a correct implementation)
@@ -694,7 +698,44 @@ def huge_params(rng, twopl=True):
     return p
 
 
+def giant_params(rng):
+    """More first-side agents than 16 bits hold (65536 and beyond, or just
+    past 2**17): short lists, few agents on the other side, one file.  A
+    generator run of this size takes seconds, so the lane is a handful of
+    runs per batch."""
+    mp = rng.choice(['hr', 'hr', 'spa'])
+    p = gen_params(rng, mp=mp, twopl=True)
+    p['n1'] = rng.choice([rng.randint(65536, 65560),
+                          rng.randint(65537, 70000),
+                          rng.randint(131072, 131100)])
+    if mp == 'sm':
+        p['pmax'] = rng.randint(1, 3)
+    else:
+        p['n2'] = rng.randint(2, 7)
+        p['pmax'] = rng.randint(1, min(p['n2'], 3))
+        p['uq'] = p['n2'] * rng.choice([1, 2, 20000]) + rng.choice([0, 1])
+        p['lq'] = rng.choice([None, 0, rng.randint(0, 2)])
+        if p['lq'] is None:
+            p.pop('lq')
+    p['pmin'] = rng.randint(1, p['pmax'])
+    if mp == 'spa':
+        p['n3'] = rng.randint(1, 4)
+        p['luq'] = rng.randint(1, p['n3'] + 4)
+        p['lt'] = rng.randint(0, p['luq'])
+        p['llq'] = rng.randint(0, p['lt'])
+    p['twopl'] = True
+    p['numinst'] = 1
+    return p
+
+
+GIANT_LANE = {'quick': 0.0004, 'thorough': 0.0004}
+
+
 def build_c12(rng, tier):
+    if rng.random() < GIANT_LANE.get(tier, 0):
+        sc = gen_base(rng, giant_params(rng))
+        sc['giant'] = True
+        return sc
     if rng.random() < 0.02:
         p = huge_params(rng)
         if p['mp'] == 'ha':
